@@ -253,6 +253,13 @@ func genC20(r *rand.Rand, t *Trace, thorough bool) {
 	for it := 0; it < nt; it++ {
 		kind := 1 + r.Intn(3)
 		p, ntrain := rndParams(r, kind, false)
+		if kind == 3 && it%2 == 1 {
+			// several populated cells and several codewords: the order in which the residuals reach the
+			// codebook trainer matters to what it learns
+			p.nlist = 2 + r.Intn(3)
+			p.nbits = 2 + r.Intn(2)
+			ntrain = 40 + r.Intn(40)
+		}
 		if it%3 == 0 {
 			// training sets up to the quantifier's 500 vectors over few clusters (hundreds of points per cluster)
 			ntrain = 300 + r.Intn(201)
@@ -278,14 +285,22 @@ func genC20(r *rand.Rand, t *Trace, thorough bool) {
 			return ns
 		}
 		a.Train(mk())
-		b.Train(mk())
-		b.Train(mk()) // and training the same index twice
+		early := 0
+		for j := 0; j < 4; j++ {
+			// ... and training the same index again and again: what it learns never depends on anything
+			// but the training set (not on iteration order of a map, a clock, an address)
+			b.Train(mk())
+			sa, sb := comet.VerifSnapshot(a), comet.VerifSnapshot(b)
+			if !vecsEqualBits(sa.Centroids, sb.Centroids) || !vecsEqualBits(sa.Codebooks, sb.Codebooks) {
+				early++
+			}
+		}
 		for i := 0; i < 15; i++ {
 			v := histVec(r, p.dim, 1)
 			a.Add(*comet.NewVectorNodeWithID(uint32(i+1), cloneVec(v)))
 			b.Add(*comet.NewVectorNodeWithID(uint32(i+1), cloneVec(v)))
 		}
-		diffs := 0
+		diffs := early
 		// identical input, identical output: the learned centroids and codebooks themselves ...
 		sa, sb := comet.VerifSnapshot(a), comet.VerifSnapshot(b)
 		if sa.Trained != sb.Trained || !vecsEqualBits(sa.Centroids, sb.Centroids) || !vecsEqualBits(sa.Codebooks, sb.Codebooks) {
